@@ -258,6 +258,7 @@ def check(model: Model, run: Run) -> None:
     serialisers_are_pure(model, run)
     components_rendered_as_held(model, run)
     no_default_for_empty_text(model, run)
+    delimiter_scans_start_at_the_first_octet(model, run)
     from .c17 import hooks_store_fields_as_given
     hooks_store_fields_as_given(model, run, model.subclasses(f"{FILTER}.LDAPFilter"), "J14-fields-held-as-given",
                                 "the filter from_string builds is changed again on construction, so it is not the filter the text denotes")
@@ -863,6 +864,41 @@ def no_default_for_empty_text(model: Model, run: Run, rule: str = "J15-empty-tex
             run.fail(Finding(rule, fi.qualname, norm(x)[:80], f"{fi.name} evaluates `{norm(x)[:70]}`: the left side is {t[1]} text that is never None, so the fallback is taken exactly when that "
                              "piece of the input is empty - a legal value that now parses as something else", model.loc(fi.module, x)))
     run.ob(rule, True, {"parser_functions": len(fa.parser_functions), "sites": n})
+
+
+def delimiter_scans_start_at_the_first_octet(model: Model, run: Run, rule: str = "J17-delimiter-scan-covers-the-first-octet") -> None:
+    """J17: a counted loop of the filter string parser that looks for a structural character (`)`, `(`, `=`, `*`) by indexing
+    the input with its counter starts at 0: started at 1 it never looks at the first octet, which is where the delimiter is
+    when the piece in front of it is empty (`(a=)`)."""
+    from ..anchors import filt as filter_anchors
+    fa = filter_anchors(model)
+    DELIMS = {")", "(", "=", "*", b")", b"(", b"=", b"*", 40, 41, 42, 61}
+    n = 0
+    for fi in fa.parser_functions:
+        for lp in walk_no_nested(fi.node):
+            if not (isinstance(lp, ast.For) and isinstance(lp.target, ast.Name) and isinstance(lp.iter, ast.Call) and isinstance(lp.iter.func, ast.Name) and lp.iter.func.id == "range"):
+                continue
+            i = lp.target.id
+            looks = False
+            for c in ast.walk(lp):
+                if isinstance(c, ast.Compare) and len(c.ops) == 1 and isinstance(c.ops[0], (ast.Eq, ast.NotEq, ast.In, ast.NotIn)):
+                    sides = [c.left, c.comparators[0]]
+                    lit = any((isinstance(x, ast.Constant) and x.value in DELIMS) or
+                              (isinstance(x, (ast.Tuple, ast.List, ast.Set)) and any(isinstance(y, ast.Constant) and y.value in DELIMS for y in x.elts)) for x in sides)
+                    idx = any(isinstance(y, ast.Subscript) and any(isinstance(z, ast.Name) and z.id == i for z in ast.walk(y.slice)) for x in sides for y in ast.walk(x))
+                    if lit and idx:
+                        looks = True
+            if not looks:
+                continue
+            n += 1
+            a = lp.iter.args
+            start = a[0] if len(a) >= 2 else None
+            ok = start is None or (isinstance(start, ast.Constant) and start.value == 0)
+            run.ob(rule, ok, {"function": fi.name, "loop": norm(lp.iter)[:50]})
+            if not ok:
+                run.fail(Finding(rule, fi.qualname, norm(lp.iter)[:80], f"{fi.name} scans for a delimiter with `for {i} in {norm(lp.iter)[:40]}`: the octet at index 0 is never looked at, so an "
+                                 "empty piece in front of the delimiter (an empty assertion value) is mis-scanned", model.loc(fi.module, lp)))
+    run.ob(rule, True, {"delimiter_scans": n})
 
 
 def operator_agreement(model: Model, run: Run) -> None:
